@@ -5,7 +5,10 @@
    1-based column within it (unpack_correct); prepending k blank lines shifts the line of every
    offset by exactly k and leaves its column unchanged (lines_shift); the reported line:column
    determines the offset again (unpack_inverse), so distinct offsets of a file are never reported
-   at the same place (unpack_injective).
+   at the same place (unpack_injective); in a file set laid out as AddFile does (disjoint ranges)
+   the file lookup returns exactly the file whose range [base, base+size] contains the position
+   and none when no range does (file_of_spec, file_of_unique - the LastFile shortcut therefore
+   agrees with the search).
    The path from scanner offsets through AST positions, the optimizer's replacement literals,
    the compiler's source map, the nearest-lower lookup at run time and the trace construction
    in throw is decided on every run on generated layouts with independently computed expected
@@ -48,7 +51,22 @@ Theorem C16_unpack_injective :
 Proof. exact unpack_injective. Qed.
 Print Assumptions C16_unpack_injective.
 
+Theorem C16_file_of_spec :
+  forall files p k, files_ok files ->
+  (file_of files p = Some k <-> exists b s, nth_error files k = Some (b, s) /\ b <= p <= b + s).
+Proof. exact file_of_spec. Qed.
+Print Assumptions C16_file_of_spec.
+
+Theorem C16_file_of_unique :
+  forall files p k1 k2 b1 s1 b2 s2, files_ok files ->
+  nth_error files k1 = Some (b1, s1) -> nth_error files k2 = Some (b2, s2) ->
+  b1 <= p <= b1 + s1 -> b2 <= p <= b2 + s2 -> k1 = k2.
+Proof. exact file_of_unique. Qed.
+Print Assumptions C16_file_of_unique.
+
 Example C16_table :
+  file_of [(1, 10); (12, 0); (13, 5)] 12 = Some 1%nat /\ file_of [(1, 10); (12, 0); (13, 5)] 19 = None /\
+  file_of [(1, 10); (12, 0); (13, 5)] 1 = Some 0%nat /\ file_of [(1, 10); (12, 0); (13, 5)] 0 = None /\
   unpack [0; 16; 31; 33; 49; 62; 73; 75; 76; 87] 51 = (5, 3) /\
   unpack (shift_lines 3 [0; 16; 31]) (20 + 3) = (5, 5) /\ unpack [0; 16; 31] 20 = (2, 5).
 Proof. vm_compute. repeat split; reflexivity. Qed.
